@@ -67,6 +67,15 @@ inductive SvcVal where
   | unknown (d : Bytes)
   deriving Repr, DecidableEq, Inhabited
 
+/-- `RecordTypeSet` (rr/record_type_set.rs): the set of type codes (`types`, sorted as the `BTreeSet`
+iterates) and `original_encoding` — the bitmap octets the set was decoded from, which `emit` writes back
+verbatim; `none` for a set built with `RecordTypeSet::new`, which `emit` encodes afresh.  Equality in
+hickory compares `types` only. -/
+structure TypeSet where
+  types : List Nat
+  orig : Option Bytes := none
+  deriving Repr, DecidableEq, Inhabited
+
 /-- `RData` -/
 inductive RData where
   | a (b : Bytes)
@@ -92,13 +101,13 @@ inductive RData where
   | dnskey (cd : Bool) (flags alg : Nat) (key : Bytes)
   /-- SIG / RRSIG -/
   | sig (covered alg labels ottl expiration inception tag : Nat) (signer : Name) (sig : Bytes)
-  | nsec (next : Name) (types : List Nat)
+  | nsec (next : Name) (types : TypeSet)
   /-- `b32` is `next_hashed_owner_name_base32`: the base32hex label computed by
   `NSEC3::with_record_type_set` on the decode path, `none` when it is not a valid label -/
-  | nsec3 (optOut : Bool) (iterations : Nat) (salt hash : Bytes) (b32 : Option Bytes) (types : List Nat)
+  | nsec3 (optOut : Bool) (iterations : Nat) (salt hash : Bytes) (b32 : Option Bytes) (types : TypeSet)
   | nsec3param (optOut : Bool) (iterations : Nat) (salt : Bytes)
   | cert (ctype tag alg : Nat) (d : Bytes)
-  | csync (serial flags : Nat) (types : List Nat)
+  | csync (serial flags : Nat) (types : TypeSet)
   /-- TLSA / SMIMEA -/
   | tlsa (usage selector matching : Nat) (d : Bytes)
   | sshfp (alg fp : Nat) (d : Bytes)
@@ -338,8 +347,10 @@ def toEnd {α} (p : Bytes → Outcome α × Nat) : Rd α := do
   tick r.2
   lift r.1
 
-/-- `RecordTypeSet::read_data`: consumes the rest of the decoder, one iteration per octet -/
-def readTypeSet : Rd (List Nat) := toEnd fun d => (parseBitmap d .window [], d.length)
+/-- `RecordTypeSet::read_data`: consumes the rest of the decoder, one iteration per octet; the octets
+read are kept as `original_encoding` -/
+def readTypeSet : Rd TypeSet :=
+  toEnd fun d => ((parseBitmap d .window []).map fun ts => { types := ts, orig := some d }, d.length)
 
 /-- `TSIG::read_data` -/
 def readTsig : Rd RData := do
